@@ -540,7 +540,7 @@ func RunC15(ep *core.Episode) {
 		hmu.Unlock()
 		S.Yield(site)
 	}
-	ep.OnCleanup(func() { verifhook.OnYield = nil })
+	ep.OnDrained(func() { verifhook.OnYield = nil })
 	var tasks []*core.Task
 	for k := 0; k < ntasks; k++ {
 		k := k
